@@ -4,7 +4,7 @@ import Ggql.Model.Rollback
 namespace Ggql.Driver.C14
 open Ggql Ggql.Rollback
 
-def cfgCurOf (tb : Tables) : Cfg := { schemaDuringScan := tb.schemaDuringScan }
+def cfgCurOf (tb : Tables) : Cfg := { shallowRollback := tb.shallowRollback, schemaDuringScan := tb.schemaDuringScan }
 
 def decAct : T → Option Act
   | .node "define" [n] => do pure (.define (← n.asStr) ["m"])
